@@ -28,8 +28,9 @@ Definition dispatch_clientstate (fn : string) (a : pv) : option pv :=
     let mode := if arg_b "cache" a then CacheMode else SessionMode in
     let ops := map cop_of (arg_l "ops" a) in
     let s0 := cinit (cs_nat (arg "sessions" a)) in
-    let fin := crun_from mode (arg_b "clears_old" a) (arg_z "expires_in" a) s0 ops in
-    Some (PDict [("outs", PList (map pv_of_cout (crun_outs mode (arg_b "clears_old" a) (arg_z "expires_in" a) s0 ops)));
+    let o1 := fun p => existsb (String.eqb p) (arg_strs "oauth1" a) in
+    let fin := crun_from mode (arg_b "clears_old" a) (arg_z "expires_in" a) o1 s0 ops in
+    Some (PDict [("outs", PList (map pv_of_cout (crun_outs mode (arg_b "clears_old" a) (arg_z "expires_in" a) o1 s0 ops)));
                  ("sessions", PList (map (fun l => PList (map pv_of_entry l)) (c_sessions fin)));
                  ("cache", PList (map pv_of_entry (c_cache fin)))])
   else None.
